@@ -2,7 +2,7 @@
 # soak: quick tier at several seeds, then thorough tier; prints one line per check
 cd "$(dirname "$0")/.."
 export VERIF_EVIDENCE_DIR=${VERIF_EVIDENCE_DIR:-/tmp/verif-soak-ev}
-for seed in 1 2 3 4 5 6 7 8; do
+for seed in ${SOAK_SEEDS:-1 2 3 4 5 6 7 8}; do
   for p in C05 C06 C09 C10 C14 C16 C17 C19; do
     out=$(VERIF_SEED=$seed timeout 1800 /venv/bin/python sim/cli.py check $p --tier quick 2>&1); rc=$?
     echo "quick seed=$seed $p rc=$rc $(echo "$out" | grep -E 'VIOLATION|HARNESS|oracle=' | head -3 | tr '\n' ' ' | cut -c1-300)"
